@@ -146,7 +146,7 @@ def scenario_lines(sc, subset, tag):
         elif ev[0] == "D":      # the bias is deleted in the middle of the run
             if ev[1] in subset:
                 L.append("script cv bias b%d delete" % ev[1])
-        elif ev[0] == "C":      # a configuration that is rejected (harmonic restraint without centers) in the middle of the session
+        elif ev[0] == "C" and not tag.split(":")[-1].startswith("N"):      # a configuration that is rejected (harmonic restraint without centers) in the middle of the session
             L += ["config EOF", "harmonic {", "  name rejected%d" % ev[1], "  colvars v0", "  forceConstant 2.0", "}", "EOF"]
     L.append("echo END %s" % tag)
     return L
@@ -787,6 +787,21 @@ def oracle_getenergy(run, sc, tag, subset, isteps):
             return
 
 
+def oracle_rejected(run, sc, R, t0):
+    """O14: a rejected configuration in the middle of the session changes nothing: the run with the attempts equals the run
+    without them in every dumped field (feature flags and reference counts of variables and biases, values, forces, energy)"""
+    sAB, sN = R[t0]["steps"], R["N" + t0]["steps"]
+    AB = sc["_subsets"][t0]
+    for s in range(min(first_error(sAB), first_error(sN))):
+        a, b = sAB[s], sN[s]
+        same = a["V"] == b["V"] and a["B"] == b["B"] and a["A"] == b["A"] and a["E"] == b["E"]
+        if not same:
+            diff = [(x["name"], k_) for x, y in zip(a["V"] + a["B"], b["V"] + b["B"]) for k_ in x if x.get(k_) != y.get(k_)][:4]
+            run.violation("pipeline:rejected-config", "scenario %d step %d (it=%d): after a rejected bias configuration the state differs from the run without the attempt: %s"
+                          % (sc["id"], s, a["it"], diff), replay_of(sc, {t0: AB, "N" + t0: AB}, {"step_index": s}))
+            return
+
+
 def oracle_order(run, sc, R):
     """O12: the same biases written in the reverse order (the module keeps configuration order within a bias type): same
     atom forces and energy at every step (C08_order_independent)"""
@@ -1197,13 +1212,16 @@ def run_batch(unit, model, scs, d):
             subsets["0"] = []
         if sc.get("force_B"):
             subsets = {"AB": AB, "A": sc["A"], "B": []}
+        if any(ev[0] == "C" for ev in sc["events"]) and sc["family"] == "mix":
+            for t0 in list(subsets):  # the same runs without the rejected configuration attempts
+                subsets["N" + t0] = subsets[t0]
         if sc.get("perm_run") and len(AB) >= 2:
             subsets["P"] = AB          # the same biases, written in the reverse order in the configuration
         sc["_subsets"] = subsets
         for t, sub in subsets.items():
             tag = "%d:%s" % (sc["id"], t)
             L += scenario_lines(sc, sub, tag)
-            if all(sc["biases"][j]["kind"] not in ("F", "FA") for j in sub) and sc["family"] not in ("ext", "scripted", "vector", "toggle") and t != "P":
+            if all(sc["biases"][j]["kind"] not in ("F", "FA") for j in sub) and sc["family"] not in ("ext", "scripted", "vector", "toggle") and t != "P" and not t.startswith("N"):
                 M.append(model_case(sc, sub))
                 keys.append(tag)
     for sc in scs:
@@ -1306,7 +1324,7 @@ def check(run):
             for t, sub in subsets.items():
                 tag = "%d:%s" % (sc["id"], t)
                 isteps = R[t]["steps"]
-                if t == "P":
+                if t == "P" or t.startswith("N"):
                     continue
                 sub = impl_order(sc, sub)
                 if sc["family"] != "toggle" and any([b["name"] for b in stp["B"]] != ["b%d" % j for j in sub] for stp in isteps):
@@ -1330,6 +1348,9 @@ def check(run):
                     nontriv = True
             if "P" in R:
                 oracle_order(run, sc, R)
+            for t0 in ("AB", "A", "B"):
+                if "N" + t0 in R and t0 in R:
+                    oracle_rejected(run, sc, R, t0)
             if "AB" in R:
                 if sc["family"] == "scripted":
                     oracle_scripted(run, sc, R)
